@@ -37,12 +37,23 @@ def main():
     open(os.path.join(out, "patch.diff"), "w").write(patch)
     rc, untracked = sh("git ls-files --others --exclude-standard", cwd=wt)
     demos = [f for f in untracked.split() if f.endswith(".go")]
+    # a seed that renames identifiers its demonstration uses may ship two variants of the demo:
+    # <name>_test.go.with (compiles against the changed code) and <name>_test.go.without (against the original)
+    variants = [f for f in untracked.split() if f.endswith("_test.go.with") or f.endswith("_test.go.without")]
+    for v in variants:
+        dst = os.path.join(out, "demo", v)
+        os.makedirs(os.path.dirname(dst), exist_ok=True)
+        shutil.copy(os.path.join(wt, v), dst)
+        base = v.rsplit(".", 1)[0]
+        if base not in demos:
+            demos.append(base)
     rc, changed = sh("git diff --name-only -- . ':(exclude)*_test.go'", cwd=wt)
     changed = changed.split()
     for d in demos:
         dst = os.path.join(out, "demo", d)
         os.makedirs(os.path.dirname(dst), exist_ok=True)
-        shutil.copy(os.path.join(wt, d), dst)
+        if os.path.exists(os.path.join(wt, d)):
+            shutil.copy(os.path.join(wt, d), dst)
     if os.path.exists(os.path.join(wt, "SEED.md")):
         shutil.copy(os.path.join(wt, "SEED.md"), os.path.join(out, "AUTHOR_NOTES.md"))
     mods = sorted({module_of(f) for f in changed})
@@ -56,9 +67,15 @@ def main():
         sh(f"rsync -a --exclude .git {wt}/ {wo}/")
         rc, o = sh(f"patch -R -p1 < {out}/patch.diff", cwd=wo)
         meta["reverse_patch_ok"] = rc == 0
+        for d in demos:
+            for label, root in (("with", w), ("without", wo)):
+                var = os.path.join(root, d + "." + label)
+                if os.path.exists(var):
+                    shutil.copy(var, os.path.join(root, d))
         # existing tests with the change (demo moved away)
         for d in demos:
-            os.rename(os.path.join(w, d), os.path.join(w, d + ".off"))
+            if os.path.exists(os.path.join(w, d)):
+                os.rename(os.path.join(w, d), os.path.join(w, d + ".off"))
         ok_all = True
         for m in mods:
             rc, o = sh("go test -vet=off -count=1 -timeout 25m ./...", cwd=os.path.join(w, m))
@@ -66,7 +83,8 @@ def main():
             ok_all = ok_all and rc == 0
         meta["existing_tests_pass_with_change"] = ok_all
         for d in demos:
-            os.rename(os.path.join(w, d + ".off"), os.path.join(w, d))
+            if os.path.exists(os.path.join(w, d + ".off")):
+                os.rename(os.path.join(w, d + ".off"), os.path.join(w, d))
         # demo with / without
         res = {}
         for label, root in (("with", w), ("without", wo)):
